@@ -241,7 +241,7 @@ class C13(runner.Check):
         clk.advance(plan['advance'][step])
         if step in restarts:
           md = B.dump()
-          if plan.get('xproc') and step == max(restarts):
+          if plan.get('xproc') and step == max(restarts) and restarts == plan['restart_sets'][0]:  # once per plan
             other = _restart_in_another_process(plan, md, count, step)
             res.bump('fault.designer-restart-in-another-process')
             xproc_expect = other
